@@ -42,7 +42,7 @@ func rr(ids ...string) []ruleRef {
 // only keeps obligations whose construct mentions one of the fragments (anchor-lost reports are always kept).
 func only(rule string, frags ...string) ruleRef {
 	return ruleRef{Rule: rule, Filter: func(o *Obligation) bool {
-		if strings.HasPrefix(o.Construct, "anchor-lost:") {
+		if strings.HasPrefix(o.Construct, "anchor-lost:") || strings.Contains(o.Construct, "verifCtl") {
 			return true
 		}
 		for _, f := range frags {
@@ -108,10 +108,10 @@ var propSpecs = map[string]*propSpec{
 	"C09": {ID: "C09", Rules: rr("B1", "B2"), Controls: []string{"B1"},
 		Explanation: "Every subscription to store-scoped event types on a bus that may be the instance-wide one either filters by the event's database address before any effect, or is made on a bus private to the store (B1); both receive paths route a heads message by the address it names before Sync (B2).",
 		NotDecided:  "interference through the shared IPFS node or the pubsub router."},
-	"C10": {ID: "C10", Rules: rr("L1", "Q1", "I4"), Controls: []string{"L1"},
+	"C10": {ID: "C10", Rules: []ruleRef{{Rule: "L1"}, only("Q1", "rejected-join"), {Rule: "I4"}}, Controls: []string{"L1"},
 		Explanation: "A failing Join stays inside the loop over fetched logs (L1); the task table's terminal state either does not block re-queuing or is collected at load-end regardless of the buffer (Q1); the view is refreshed after partial batches (I4).",
 		NotDecided:  "which entries the dependency rejects."},
-	"C11": {ID: "C11", Rules: rr("Q1", "Q2", "G2"),
+	"C11": {ID: "C11", Rules: []ruleRef{only("Q1", "failed-fetch", "tasks[]"), {Rule: "Q2"}, {Rule: "G2"}},
 		Explanation: "Task states are not absorbing while blocking (Q1); a worker whose slot wait fails removes a queued item and its task entry (Q2); goroutines draining a fetch-progress channel have no exit on ctx.Done() while the fetcher can still send (G2, with DF4 derived from the dependency).",
 		NotDecided:  "behaviour of IPFS fetches under cancellation."},
 	"C12": {ID: "C12", Rules: []ruleRef{{Rule: "N2"}, {Rule: "N4"}, only("E3", "pubsub", "PayloadEmitter"), {Rule: "T1"}, only("N1", "directchannel")}, Controls: []string{"N4", "N2", "T1"},
